@@ -72,7 +72,7 @@ def _run_scenario(job):
             return {"kind": kind, "seed": seed, "trace": tr, "drift": [], "steps": steps}
         elif kind == "directed":
             from harness import mailgen
-            tr = mailgen.execute(payload["steps"], seed=seed)
+            tr = mailgen.execute(payload["steps"], seed=seed, pack_limit=3, pack_ratio=0.75)
             return {"kind": kind + ":" + payload["name"], "seed": seed, "trace": tr, "drift": [],
                     "steps": payload["steps"]}
         else:
